@@ -632,7 +632,7 @@ func poolFullInit(c *Ctx, r *Report, rule string) {
 					}
 					for i := 0; i < stt.NumFields(); i++ {
 						f := stt.Field(i)
-						if immutableFields[f.Origin()] {
+						if immutableFields[f.Origin()] && !elementStoredArrays[f.Origin()] {
 							continue
 						}
 						cv := assigned[f.Origin()]
